@@ -68,7 +68,13 @@ SendRaw(pi, b) == LET f == WorkDir \o "/dl" \o ToString(pi) \o ".json"
 SendOne(i, bytes) ==
    IF ~Online THEN TRUE
    ELSE (IF Ins /\ i = Fault.at THEN SendRaw(i, Fault.ins) ELSE TRUE)
-        /\ IF Fault.kind = "close" /\ i >= Fault.at
+        /\ IF Fault.kind = "closeafter" /\ i >= Fault.at
+           \* the peer answers message `at` and is gone at once: the emulator reads the answer and its next *write* meets the closed association
+           THEN IF i = Fault.at
+                THEN LET f == WorkDir \o "/dl" \o ToString(i) \o ".json"
+                     IN JsonSerialize(f, [bytes |-> bytes]) /\ IOExec(<<PumpBin, "ctl", "-sock", Sock, "sendclose", ToString(i), f>>).exitValue = 0
+                ELSE IOExec(<<PumpBin, "ctl", "-sock", Sock, "close", ToString(i)>>).exitValue = 0
+           ELSE IF Fault.kind = "close" /\ i >= Fault.at
            THEN IOExec(<<PumpBin, "ctl", "-sock", Sock, "close", ToString(Px(i))>>).exitValue = 0
            ELSE LET b == IF Fault.kind = "garbage" /\ i = Fault.at THEN Garbage(bytes)
                          ELSE IF "pre" \in DOMAIN Fault /\ i = Fault.pre THEN Fault.prebytes   \* an ignored message is undecodable too (see above)
